@@ -323,6 +323,10 @@ static void prop_c03(Tape &t, Result &r) {
   gp::Program p = g.generate();
   gp::normalise(p);
   gp::Layout L = gp::layout_free(p, lt, mutate ? 1 : nfiles);
+  if (L.blank_includes) r.cls("layout:include-of-a-file-without-tokens");
+  if (L.body_includes) r.cls("layout:include-inside-a-macro-body");
+  if (L.main.rfind("__", 0) == 0) r.cls("layout:file-names-starting-with-__");
+  if (L.main.rfind("Cc/", 0) == 0) r.cls("layout:file-names-differing-in-case-only");
   bool has_dup = false;
   for (auto &d : p.defs) {
     std::set<std::string> s(d.params.begin(), d.params.end());
@@ -542,6 +546,10 @@ static void prop_c08(Tape &t, Result &r) {
   gp::Program p = g.generate();
   gp::normalise(p);
   gp::Layout L = gp::layout_free(p, lt, nfiles);
+  if (L.blank_includes) r.cls("layout:include-of-a-file-without-tokens");
+  if (L.body_includes) r.cls("layout:include-inside-a-macro-body");
+  if (L.main.rfind("__", 0) == 0) r.cls("layout:file-names-starting-with-__");
+  if (L.main.rfind("Cc/", 0) == 0) r.cls("layout:file-names-differing-in-case-only");
   if (p.macros) r.cls("user-macros");
   judge_c08(L.files, L.main, r);
 }
